@@ -321,7 +321,7 @@ def execute(sim, scn):
                     nxt = (nxt + 1) & 0xFFFF
                 typ = rc.NON if m["collide"] == "non" else rc.CON
                 sim.probe("mid_collision_with_peer_message")
-                peer.send(client_addr, msg={"type": typ, "code": rc.CONTENT, "mid": nxt, "token": b"\xee\x01",
+                peer.send(client_addr, msg={"type": typ, "code": rc.CONTENT, "mid": nxt, "token": b"\xee\x01\x02\x03\x04\x05",
                                             "options": [], "payload": b"unrelated"}, fate=["deliver", 0.001])
             loop.at(max(0.0, m["t"] - 0.01), collide)
         if m["kind"] == "request":
